@@ -12,6 +12,7 @@ package connmgr
 import (
 	"context"
 	"fmt"
+	"runtime"
 	"sort"
 	"sync"
 	"testing"
@@ -114,11 +115,11 @@ type c14Op struct {
 
 func (o c14Op) words() []int64 {
 	switch o.kind {
-	case 1, 2, 4, 7, 9, 10:
+	case 1, 2, 4, 7, 9, 10, 14:
 		return []int64{o.kind, o.a, o.b}
 	case 3, 5, 6:
 		return []int64{o.kind, o.a, o.b, o.v}
-	case 8, 11:
+	case 8, 11, 16:
 		return []int64{o.kind, o.a}
 	}
 	return []int64{o.kind}
@@ -145,6 +146,8 @@ type c14World struct {
 	ids   [c14NP]peer.ID
 	conns [c14NP][c14NC]*c14Conn
 	dtags []connmgr.DecayingTag
+	lastAcc int64
+	stalled bool // the decayer loop is held on the stall peer's segment lock: no synctest.Wait
 	rec   *c14Rec
 	out   *verifh.Out
 	now   int64
@@ -213,6 +216,60 @@ func c14New(cfg c14Cfg, r *verifh.Rand, out *verifh.Out) *c14World {
 
 func (w *c14World) close() { w.cm.Close() }
 
+// registerTag registers decaying tag i of the configuration (name "dec<i>").
+func (w *c14World) registerTag(i int) (connmgr.DecayingTag, error) {
+	d := w.cfg.dts[i]
+	var dec connmgr.DecayFn = connmgr.DecayNone()
+	if d.k != 0 {
+		dec = connmgr.DecayFixed(int(d.k))
+	}
+	var bmp connmgr.BumpFn = connmgr.BumpSumUnbounded()
+	if d.max >= d.min {
+		bmp = connmgr.BumpSumBounded(int(d.min), int(d.max))
+	}
+	return w.cm.RegisterDecayingTag(fmt.Sprintf("dec%d", i), time.Duration(d.interval)*c14Unit, dec, bmp)
+}
+
+// the lever that holds the decayer loop: a peer outside the observed universe
+// (own segment) whose segment lock the harness takes before queuing a bump for
+// it; the loop picks the bump up and waits for the lock.  The peer never holds
+// a connection, so it influences no count, no closed set and no observed peer.
+var c14StallPeer = peer.ID("verif-c14-stall-peer-\xf0")
+
+// stalledCloseReRegister: Close of tag d and a RegisterDecayingTag with the
+// same name while the loop cannot process the queued closure; then the loop is
+// released.  Recorded as ops 16 d, 14 d acc, 8 d.
+func (w *c14World) stalledCloseReRegister(d int) (done, acceptedDuringStall bool) {
+	lever := -1
+	for i := range w.dtags {
+		if !w.dclosed[i] {
+			lever = i
+		}
+	}
+	if lever < 0 || w.dclosed[d] {
+		return false, false
+	}
+	seg := w.cm.segments.get(c14StallPeer)
+	seg.Lock()
+	if err := w.dtags[lever].Bump(c14StallPeer, 1); err != nil {
+		seg.Unlock()
+		return false, false
+	}
+	for len(w.cm.decayer.bumpTagCh) != 0 {
+		runtime.Gosched()
+	}
+	w.stalled = true
+	w.exec(c14Op{kind: 16, a: int64(d)})
+	w.exec(c14Op{kind: 14, a: int64(d)})
+	acceptedDuringStall = w.lastAcc == 1
+	w.stalled = false
+	seg.Unlock()
+	synctest.Wait()
+	w.items = append(w.items, append(c14Op{kind: 8, a: int64(d)}.words(), w.observe(8)...))
+	w.cover("dclose.processed_after_stalled_loop")
+	return true, acceptedDuringStall
+}
+
 func (w *c14World) cover(n string) {
 	if w.out != nil {
 		w.out.Cover(n)
@@ -222,8 +279,14 @@ func (w *c14World) cover(n string) {
 // exec performs one operation on the implementation and records the op and
 // the observation.
 func (w *c14World) exec(o c14Op) {
+	w.lastAcc = 0
 	w.apply(o)
-	synctest.Wait()
+	if !w.stalled {
+		synctest.Wait()
+	}
+	if o.kind == 14 {
+		o.b = w.lastAcc
+	}
 	w.items = append(w.items, append(o.words(), w.observe(o.kind)...))
 }
 
@@ -465,6 +528,29 @@ func (w *c14World) apply(o c14Op) {
 		if w.values() != before {
 			w.cover("advance.decay_changed_a_value")
 		}
+	case 14:
+		if p >= 0 && p < len(w.dtags) {
+			t, err := w.registerTag(p)
+			switch {
+			case err != nil:
+				w.cover("reregister.refused_name_taken")
+			default:
+				w.lastAcc = 1
+				w.dtags[p] = t
+				w.dclosed[p] = false
+				if w.stalled {
+					w.cover("reregister.ACCEPTED_while_closure_queued")
+				} else {
+					w.cover("reregister.accepted_after_closure")
+				}
+			}
+		}
+	case 16:
+		if p >= 0 && p < len(w.dtags) {
+			_ = w.dtags[p].Close()
+			w.dclosed[p] = true
+			w.cover("dclose.queued_while_loop_stalled")
+		}
 	case 12:
 		w.preTrimCoverage()
 		cm.TrimOpenConns(context.Background())
@@ -666,6 +752,12 @@ func (w *c14World) randOp(r *verifh.Rand, profile int) c14Op {
 		k := int64(1 + r.Intn(13))
 		return c14Op{kind: k, a: int64(r.Intn(c14NP)), b: int64(r.Intn(4)), v: int64(r.Intn(25) - 8)}.norm(w, r)
 	}
+	if profile == 1 && r.Chance(1, 25) {
+		return c14Op{kind: 14, a: int64(r.Intn(c14ND))}
+	}
+	if profile == 1 && r.Chance(1, 30) {
+		return c14Op{kind: 99, a: int64(r.Intn(c14ND))} // stalled close + re-register (composite)
+	}
 	x := r.Intn(100)
 	switch {
 	case x < 24:
@@ -712,8 +804,11 @@ func (o c14Op) norm(w *c14World, r *verifh.Rand) c14Op {
 		o.b = o.b % c14NT
 	case 6, 7:
 		o.b = o.b % c14ND
-	case 8:
+	case 8, 14, 16:
 		o.a = o.a % c14ND
+		if o.kind == 16 {
+			o.kind = 8 // a queued closure only exists inside stalledCloseReRegister
+		}
 	case 9, 10:
 		o.b = o.b % c14NG
 	case 11:
@@ -733,7 +828,19 @@ func c14RandomCase(out *verifh.Out, r *verifh.Rand, nops int) {
 			w.exec(c14Op{kind: 1, a: int64(r.Intn(c14NP)), b: int64(r.Intn(c14NC))})
 		}
 		for i := 0; i < nops; i++ {
-			w.exec(w.randOp(r, profile))
+			o := w.randOp(r, profile)
+			if o.kind == 99 {
+				if done, acc := w.stalledCloseReRegister(int(o.a)); done {
+					// if the name was still taken, retry once the closure has been processed; then use the new tag
+					if !acc {
+						w.exec(c14Op{kind: 14, a: o.a})
+					}
+					w.exec(c14Op{kind: 6, a: int64(r.Intn(c14NP)), b: o.a, v: int64(3 + r.Intn(9))})
+					w.exec(c14Op{kind: 11, a: w.cfg.dts[o.a].interval + w.cfg.res})
+				}
+				continue
+			}
+			w.exec(o)
 		}
 		out.Cover("cases.sequential")
 		if w.sawEffectiveTrim {
@@ -849,6 +956,27 @@ func c14Directed(out *verifh.Out, r *verifh.Rand) {
 		w.exec(trim)
 		if w.duringAt >= 0 {
 			out.Cover("cases.during_trim_directed")
+		}
+		out.Case(w.caseLine())
+	})
+	// a decaying tag is closed and a tag of the same name is registered while the
+	// loop cannot process the queued closure (refused: the name is still taken);
+	// after the closure the registration succeeds and the new tag decays
+	synctest.Test(c14T, func(t *testing.T) {
+		w := c14New(c14Cfg{2, 3, 0, 2, dts}, r, out)
+		defer w.close()
+		for _, o := range []c14Op{C(0, 0), C(1, 0), B(0, 0, 7), B(1, 1, 4)} {
+			w.exec(o)
+		}
+		done, acc := w.stalledCloseReRegister(0)
+		if done {
+			out.Cover("cases.directed_stalled_close_reregister")
+		}
+		if !acc {
+			w.exec(c14Op{kind: 14, a: 0})
+		}
+		for _, o := range []c14Op{B(1, 0, 9), B(0, 0, 3), A(2), A(2), A(2), trim} {
+			w.exec(o)
 		}
 		out.Case(w.caseLine())
 	})
